@@ -482,6 +482,8 @@ class SimplicialComplex(Hypergraph):
             faces = []  # container to store subfaces
             try:
                 for idx, members in ebunch_to_add.items():
+                    if iter(members) is members:  # a one-shot iterator: keep what is read
+                        members = list(members)
                     if None in members:
                         raise XGIError("None cannot be a node or edge")
 
@@ -534,6 +536,8 @@ class SimplicialComplex(Hypergraph):
         except StopIteration:
             return
         try:
+            if iter(first_edge) is first_edge:  # a one-shot iterator: keep what is read
+                first_edge = list(first_edge)
             first_elem = list(first_edge)[0]
         except TypeError:
             first_elem = None
@@ -573,7 +577,8 @@ class SimplicialComplex(Hypergraph):
                 # check if members is iterable before checking it exists
                 # to raise meaningful error if not iterable
                 try:
-                    _ = iter(members)
+                    if iter(members) is members:  # a one-shot iterator: keep what is read
+                        members = list(members)
                 except TypeError as e:
                     raise XGIError("Invalid ebunch format") from e
 
